@@ -187,6 +187,12 @@ def dh_ephemeral_for_leading_zero_secret(rng: random.Random, priv_server: int) -
     return k * pow(priv_server % RFC5114_Q, -1, RFC5114_Q) % RFC5114_Q
 
 
+def lookalike_nonce(rng: random.Random) -> bytes:
+    """A 32-byte nonce that happens to start like one of the public-key structures (legal: a nonce is any 32 bytes)."""
+    magic = rng.choice([b"DHPB", b"DHPM", b"ECK1", b"ECK3", b"ECK5", b"KDSK"])
+    return magic + rng.choice([(8).to_bytes(4, "little"), (12).to_bytes(4, "little"), (32).to_bytes(4, "little"), rng.randbytes(4)]) + rng.randbytes(24)
+
+
 def server_private(rk: cms.RootKey, rkid: uuid.UUID, sid: str, pos: t.Tuple[int, int, int]) -> int:
     from vf.ref import crypto
 
@@ -195,12 +201,12 @@ def server_private(rk: cms.RootKey, rkid: uuid.UUID, sid: str, pos: t.Tuple[int,
     return int.from_bytes(crypto.private_from_seed(rk.hash_name, l2k, rk.secret_algorithm, rk.private_key_length), "big")
 
 
-def ref_blob(rng: random.Random, rkid: uuid.UUID, rk: cms.RootKey, sid: str, pos: t.Tuple[int, int, int], mode: str, plaintext: bytes, in_envelope: bool = True, domain: str = "verif.test", forest: t.Optional[str] = None, leading_zero_secret: bool = False) -> bytes:
+def ref_blob(rng: random.Random, rkid: uuid.UUID, rk: cms.RootKey, sid: str, pos: t.Tuple[int, int, int], mode: str, plaintext: bytes, in_envelope: bool = True, domain: str = "verif.test", forest: t.Optional[str] = None, leading_zero_secret: bool = False, nonce: t.Optional[bytes] = None) -> bytes:
     """A blob as a Windows peer would emit it (reference crypto only). mode: 'nonce' | 'public'."""
     from vf.ref import crypto
 
     l0, l1, l2 = pos
-    common_kw = dict(nonce=rng.randbytes(32), cek=rng.randbytes(32), gcm_nonce=rng.randbytes(12), in_envelope=in_envelope, domain=domain, forest=domain if forest is None else forest)
+    common_kw = dict(nonce=rng.randbytes(32) if nonce is None else nonce, cek=rng.randbytes(32), gcm_nonce=rng.randbytes(12), in_envelope=in_envelope, domain=domain, forest=domain if forest is None else forest)
     if mode == "nonce":
         return cms.reference_protect(plaintext, sid, rkid, rk, l0, l1, l2, **common_kw)
     s = rsd.canonical_sid_from_string(sid)
